@@ -327,6 +327,26 @@ def kpoints_histories():
 
     H = {"MP 3x1x1 -> trs() -> kmesh (2,1,1)": h1, "wk set by hand -> kmesh (1,1,2)": h2, "mesh mode -> Nk = 25 -> path (fcc LGXU,KG)": h3,
          "mesh -> path -> same mesh again": h4, "MP 3x3x3 -> trs() -> kshift -> kmesh (7,2,1)": h5, "path with Nk = 7 -> Nk = 12": h6}
+    def h7():
+        # through an Atoms object in band-path mode: the cell is changed after a build; the path is regenerated for the new cell
+        from eminus import Atoms
+
+        def mk(cell):
+            at = Atoms("Si", [[0.0, 0.0, 0.0]], ecut=2, a=cell)
+            at.kpts.path = "GXMG"
+            at.kpts.Nk = 10
+            return at
+
+        new = [[7.0, 0.4, 0.0], [0.0, 8.0, 0.3], [0.2, 0.0, 9.0]]
+        at = mk(6.0)
+        at.build()
+        at.a = new
+        at.build()
+        fr = mk(new)
+        fr.build()
+        return at.kpts, fr.kpts
+
+    H["Atoms in path mode: build(); a = triclinic cell; build()"] = h7
     bad = []
     for name, h in H.items():
         try:
